@@ -253,8 +253,6 @@ Fixpoint count_active (j : jout) (k : nat) (b : nat) (n : nat) : list nat :=   (
   end.
 Definition active_branches (j : jout) (k : nat) : list nat := count_active j k 0 (j_branch_count j).
 
-Fixpoint enum_from {A} (i : nat) (l : list A) : list (nat * A) :=
-  match l with [] => [] | x :: r => (i, x) :: enum_from (S i) r end.
 
 (* generate_thread_builders_and_spawn_joiners (689-732) *)
 Definition thread_builders (j : jout) (k : nat) (sr : string) : list rstmt * list rstmt :=
